@@ -471,6 +471,7 @@ func runCase(cs *Case, onRec func(reqRecord)) (res Result) {
 			// conversation it may start (protocol switch) has been quiet for a while
 			t0 := time.Now()
 			srv.beginCall()
+			ni0, _, _, _ := srv.snapshot()
 			for {
 				time.Sleep(20 * time.Millisecond)
 				if isDead() {
@@ -487,6 +488,8 @@ func runCase(cs *Case, onRec func(reqRecord)) (res Result) {
 				}
 			}
 			cr.Ms = int(time.Since(t0).Milliseconds())
+			ni1, _, _, _ := srv.snapshot()
+			cr.NReq = ni1 - ni0
 			if isDead() {
 				cr.Class = classify(deadErr)
 				if deadErr != nil {
